@@ -158,8 +158,9 @@ void vf_obs(int tag, uint64_t v) { printf("OBS %d %llu\n", tag, (unsigned long l
 void vf_tag(int) {}
 void vf_faults_enable(int on) { g_faults_on = on != 0; }
 unsigned vf_live_heap(void) { return (unsigned)g_live; }
-bool vf_fault(int)
+bool vf_fault(int kind)
 {
+	if(getenv("VF_DEBUG")) printf("FAULTPOINT %d\n", kind);
 	if(q_fault.empty()) die(6, "VF-MISMATCH fault point: replay exhausted");
 	return q_fault.pop() != 0;
 }
